@@ -1,7 +1,7 @@
 import RV.Scalar
 /-
   The operations (beyond + − × ÷) that the C20 models need: comparisons, `sqrt`, `sin`,
-  `cos`, `fabs`, `acos`, C99 `isnormal`.  Kept as a private extension of the fixed core
+  `cos`, `fabs`, `acos`, C99 `isnormal`, and the integer power of CPython floats.  Kept as a private extension of the fixed core
   class `Scalar` (rather than of the shared, still growing `ScalarT`) so that the exact
   instances in RV/Proofs/C20*.lean do not have to be touched when other models add libm
   functions to `ScalarT`.
@@ -31,5 +31,13 @@ instance : ScalarR Float where
   fabs := Float.abs
   acos := Float.acos
   isnormal := floatIsNormal
+
+/-- what the unit conversions of rebound/units.py need beyond + − × ÷: `x**n` of CPython for a
+    float `x` and a small integer literal `n`, i.e. libm `pow(x, (double)n)` -/
+class ScalarP (K : Type) extends Scalar K where
+  powi : K → Nat → K
+
+instance : ScalarP Float where
+  powi x n := Float.pow x (Float.ofNat n)
 
 end RV
